@@ -88,6 +88,16 @@ def snapshot(root: str) -> Dict[str, Optional[bytes]]:
 @st.composite
 def case(draw):
     s, inj = draw(c09.g2_case())
+    if draw(st.integers(0, 5)) == 0:
+        # the same module file imported twice (directly, or once more through a second module): every declaration of it
+        # is then duplicated, with identical source positions
+        shared = M.Schema([M.Struct("SharedQ", [M.Field("q", 0, M.U(8))])])
+        s.decls.insert(0, M.Mod(["sharedq"], shared))
+        if draw(st.booleans()):
+            s.decls.append(M.Mod(["sharedq"], shared))
+        else:
+            s.decls.append(M.Mod(["viaq"], M.Schema([M.Mod(["sharedq"], shared)])))
+        inj = list(inj) + ["module_imported_twice"]
     gen = draw(st.sampled_from(GENERATORS))
     entry = draw(st.sampled_from(["manager", "cli"]))
     pre = draw(st.lists(st.sampled_from(PRE_NAMES), max_size=4, unique=True))
@@ -110,7 +120,12 @@ def run_case(s: M.Schema, gen: str, entry: str, pre_files: Dict[str, str], missi
     install_recorders()
     info: Dict[str, Any] = {}
     text = printer.to_text(s)
-    fcp, _t, err = frontend.parse_schema(s)
+    with_mods = frontend.has_modules(s)
+    if with_mods:
+        with MO.Scratch("verif-c10p-") as sc0:
+            fcp, _t, err = frontend.parse_schema_files(s, sc0.dir)
+    else:
+        fcp, _t, err = frontend.parse_schema(s)
     if fcp is None:
         info["frontend_rejected"] = True
         return None, info
@@ -126,9 +141,13 @@ def run_case(s: M.Schema, gen: str, entry: str, pre_files: Dict[str, str], missi
     info["want"] = want
     with MO.Scratch("verif-c10-") as sc:
         out_dir = sc.path("out")
-        schema_path = sc.path("schema.fcp")
-        with open(schema_path, "w") as f:
-            f.write(text)
+        schema_path = sc.path("src/schema.fcp")
+        os.makedirs(sc.path("src"))
+        if with_mods:
+            sc.write({os.path.join("src", k): v for k, v in MO.files_of(s, "schema.fcp").items()})
+        else:
+            with open(schema_path, "w") as f:
+                f.write(text)
         pregen = "__pregen__" in pre_files
         pre_files = {k: v for k, v in pre_files.items() if k != "__pregen__"}
         if not missing_dir:
@@ -165,7 +184,10 @@ def run_case(s: M.Schema, gen: str, entry: str, pre_files: Dict[str, str], missi
         buf = io.StringIO()
         if entry == "manager":
             # a fresh parse so that the gating decision cannot lean on our verifier run above
-            fcp2, _t2, _e2 = frontend.parse_schema(s)
+            if with_mods:
+                fcp2, _t2, _e2 = frontend.parse_schema_files(s, sc.path("src2"))
+            else:
+                fcp2, _t2, _e2 = frontend.parse_schema(s)
             try:
                 with contextlib.redirect_stdout(buf):
                     r = GeneratorManager(make_general_verifier()).generate(gen, None, None, fcp2, out_dir)
